@@ -91,6 +91,9 @@ def scenarios(ctx: Ctx, backend: str) -> List[Scenario]:
     S.append(Scenario(backend, "filelist_in_cwd_only", [inv([])], filelist_in_cwd="/data/cwd.root\n"))
     S.append(Scenario(backend, "filelist_both", [inv([])], filelist_in_scripts=DEFAULT_LIST, filelist_in_cwd="/data/cwd.root\n"))
     S.append(Scenario(backend, "filelist_nowhere", [inv([])]))
+    # a list written without a final newline (python writelines([name])) - one line and several
+    S.append(Scenario(backend, "filelist_without_final_newline", [inv([]), inv(["-r"]), inv(["-r", "-o", "/results/again.root"])], filelist_in_scripts="/data/solo.root"))
+    S.append(Scenario(backend, "filelist_two_lines_without_final_newline", [inv([])], filelist_in_scripts="/data/one.root\n/data/two.root"))
     S.append(Scenario(backend, "output_to_missing_dir", [inv(["-o", "/results/missing/dir/"])], **base))
     # single-step failures at every position of the canonical histories
     for step in STEPS[backend]:
